@@ -50,42 +50,48 @@ fn main() {
     ctx.scale = args.scale;
     let t0 = Instant::now();
     let prop = args.prop.clone();
-    // A panic escaping a driver is a harness error (exit 4), never a verdict.
-    let r = std::panic::catch_unwind(std::panic::AssertUnwindSafe(|| match prop.as_str() {
-        "C01" => c01::run(&mut ctx),
-        "C02" => c02::run(&mut ctx),
-        "C03" => c03::run(&mut ctx),
-        "C04" => c04::run(&mut ctx),
-        "C05" => c05::run(&mut ctx),
-        "C06" => c06::run(&mut ctx),
-        "C07" => c07::run(&mut ctx),
-        "C08" => c08::run(&mut ctx),
-        "C09" => c09::run(&mut ctx),
-        "C10" => c10::run(&mut ctx),
-        "C11" => c11::run(&mut ctx),
-        "C12" => c12::run(&mut ctx),
-        "C13" => c13::run(&mut ctx),
-        "C14" => c14::run(&mut ctx),
-        "C15" => c15::run(&mut ctx),
-        "C16" => c16::run(&mut ctx),
-        "C17" => c17::run(&mut ctx),
-        "C18" => c18::run(&mut ctx),
-        "C19" => c19::run(&mut ctx),
-        "C20" => c20::run(&mut ctx),
-        other => {
-            eprintln!("unknown property {other}");
-            std::process::exit(3)
-        }
-    }));
+    // A panic escaping a driver is a harness error, never a verdict by itself: the shard is marked
+    // inconclusive, but everything the monitors recorded before it (incl. violations) is kept.
+    let r = catch(|| dispatch(&prop, &mut ctx));
     let wall = t0.elapsed().as_secs_f64();
-    if r.is_err() {
-        eprintln!("HARNESS-ERROR: driver {} panicked outside a monitored call", args.prop);
-        std::process::exit(4);
+    if let Err(pi) = r {
+        eprintln!("HARNESS-ERROR: driver {} panicked outside a monitored call: {} at {}", args.prop, pi.message, pi.location);
+        ctx.inconclusive(format!("driver panicked outside a monitored call: {} at {}", pi.message, pi.location));
     }
     let out = ctx.to_json(wall);
     let text = serde_json::to_string(&out).unwrap();
     match args.out {
         Some(p) => std::fs::write(p, text).unwrap(),
         None => println!("{text}"),
+    }
+}
+
+fn dispatch(prop: &str, ctx: &mut Ctx) {
+    let ctx = &mut *ctx;
+    match prop {
+        "C01" => c01::run(ctx),
+        "C02" => c02::run(ctx),
+        "C03" => c03::run(ctx),
+        "C04" => c04::run(ctx),
+        "C05" => c05::run(ctx),
+        "C06" => c06::run(ctx),
+        "C07" => c07::run(ctx),
+        "C08" => c08::run(ctx),
+        "C09" => c09::run(ctx),
+        "C10" => c10::run(ctx),
+        "C11" => c11::run(ctx),
+        "C12" => c12::run(ctx),
+        "C13" => c13::run(ctx),
+        "C14" => c14::run(ctx),
+        "C15" => c15::run(ctx),
+        "C16" => c16::run(ctx),
+        "C17" => c17::run(ctx),
+        "C18" => c18::run(ctx),
+        "C19" => c19::run(ctx),
+        "C20" => c20::run(ctx),
+        other => {
+            eprintln!("unknown property {other}");
+            std::process::exit(3)
+        }
     }
 }
